@@ -4,7 +4,7 @@
 (* one regardless of history; the index stays a prefix of the line list.    *)
 EXTENDS SourceView, TLC, Json
 CONSTANTS MaxText, Depth, Slices
-Alphabet == {LF, CR, 97, 128525}
+Alphabet == {LF, CR, 97, 128525, 11}      \* 11 = vertical tab: a control character that does NOT end a line
 Ops == IF Slices
        THEN {[op |-> "slice", line |-> ln, c |-> c, n |-> n] : ln \in 0..2, c \in {0, 1, 2, 3, MAXU}, n \in {0, 1, 2, 3, MAXU}}
        ELSE {[op |-> "get_line", i |-> i] : i \in 0..(MaxText + 1)} \cup {[op |-> "line_count"], [op |-> "lines"]}
@@ -28,6 +28,11 @@ IndexIsConsistent == IndexConsistent(st, text)
 LinesRejoin == \* the pieces, put back together with their terminators removed, have the text's non-terminator characters
     LET ls == Lines(text) IN
     FoldLeft(LAMBDA acc, x : acc \o x, <<>>, ls) = SelectSeq(text, LAMBDA c : c # CR /\ c # LF)
+\* the repeated-pattern lemma used for large texts, on small instances
+RepLemma == \A n \in 0..3 : \A sep \in {<<LF>>, <<CR>>, <<CR, LF>>} : \A unit \in {<<>>, <<97>>, <<97, 128525>>} :
+    LET t == RepText(unit, sep, n) IN
+    /\ Len(Lines(t)) = RepCount(n)
+    /\ \A i \in 0..(n + 1) : DeclLine(t, i) = RepLine(unit, n, i)
 EmitCase == (phase = "use" /\ Len(hist) = Depth) =>
     PrintT("CASE " \o ToJson([op |-> "view", text |-> text, calls |-> hist]))
 =============================================================================
